@@ -256,6 +256,13 @@ func (o *Opts) Env(maxN int) *ordered.MapSA {
 	for i := r.Intn(maxN + 1); i > 0; i-- {
 		m.Set(core.Pick(r, []string{"FOO", "BAR", "PATH", "A", "B_1", "lower", "Mixed", "X", "node_version", "env", "e", "version", "vv", "nn", "ee", "env_", "command", "é"})+core.Pick(r, []string{"", "", "_2"}), o.strish())
 	}
+	if m.Len() > 0 && r.Intn(5) == 0 {
+		// a variable set to the empty string is still set (it shadows, it is signed, it is written out)
+		o.hist("env.empty-value")
+		var keys []string
+		m.Range(func(k string, _ any) error { keys = append(keys, k); return nil })
+		m.Set(keys[r.Intn(len(keys))], "")
+	}
 	return m
 }
 
